@@ -245,7 +245,13 @@ func gen(r *vh.Rand, tier string, n int) []in {
 	// 1. every unary entry point on every vocabulary string with up to 3 (thorough: 4) slashes
 	var strs []string
 	if thorough {
-		strs = enum(vocab9, 5)
+		// all 1..4 components over the nine words (7 380) and every 5-component string over four of them (1 024, all refused)
+		strs = enum(vocab9, 4)
+		for _, s := range enum([]string{"", "latest", "stable", "foo"}, 5) {
+			if strings.Count(s, "/") == 4 {
+				strs = append(strs, s)
+			}
+		}
 	} else {
 		// 1..3 components over the nine words, 4 components (always refused: too many) over five of them
 		strs = enum(vocab9, 3)
@@ -272,8 +278,9 @@ func gen(r *vh.Rand, tier string, n int) []in {
 	curs, news, tracks := enum(vocab5, 3), enum(vocab5, 2), append(enum(vocabP, 1), "foo/edge", "latest/", "/foo", "edge/foo")
 	pnews := enum(vocabP, 3)
 	if thorough {
-		curs, news = enum(vocab9, 3), enum(vocab9, 2)
-		tracks, pnews = enum(append([]string{"foox"}, vocab9...), 2), enum(append([]string{"foox"}, vocab9...), 3)
+		// sized so that the whole thorough tier stays below ~27k cases (about 5 ms of Coq evaluation each)
+		curs, news = enum(vocab5, 3), enum(vocab6, 2) // 155 x 42
+		tracks = enum(vocabP, 2)                      // all 30 tracks of 1..2 components x 155
 	}
 	for _, c := range curs {
 		for _, nw := range news {
